@@ -153,7 +153,9 @@ def replay(t, rep, env, stats):
         scale = max(abs(want or 0.0), t["sc"][0] / t["sc"][1] if t["sc"][1] else 0.0)
         r = o[1]
         if last["op"] == "Lt":
-            if bool(r) != (want == 1):
+            if t.get("tie") and last["i"] != last["j"]:
+                pass        # physically equal amounts reached through different float computations: rounding-indeterminate (DESIGN 8)
+            elif bool(r) != (want == 1):
                 diffs.append("a < b: predicted %s observed %s" % (want == 1, r))
         elif last["op"] == "GetValue":
             if want is not None and not abs(r - want) <= 1e-9 * max(scale, 1e-300):
@@ -181,6 +183,21 @@ def replay(t, rep, env, stats):
             if res["unit"] and not str(r).endswith("[%s]" % res["unit"]):
                 diffs.append("str %r does not show unit %r" % (str(r), res["unit"]))
             pool.append(r)
+            # the same operation on the Quantity objects themselves (Quantity.__mul__ / __truediv__ / __pow__ / + / -) gives the
+            # quantity of the Scalar result; numbers are ignored by quantity arithmetic
+            try:
+                qa = pool[last["i"] - 1].GetQuantity()
+                if last["op"] == "FloorDiv":
+                    qr = qa / pool[last["j"] - 1].GetQuantity()       # Quantity has no // (the quantity of a floor division is that of the division)
+                elif last["op"] == "Pow":
+                    qr = qa ** last["n"]
+                else:
+                    qb = pool[last["j"] - 1].GetQuantity()
+                    qr = {"Mul": lambda: qa * qb, "Div": lambda: qa / qb, "Add": lambda: qa + qb, "Sub": lambda: qa - qb}[last["op"]]()
+                if not (qr == q) or not ((qa * 2) == qa):
+                    diffs.append("Quantity arithmetic gives %r, the Scalar result has %r" % (q_snapshot(qr)[0], q_snapshot(q)[0]))
+            except Exception as e:  # noqa
+                diffs.append("Quantity arithmetic raised %s: %s" % (type(e).__name__, str(e)[:100]))
             # copies and pickles equal their source (C13); quantity copies are identical, pickles equal (C07)
             for name, fn in (("copy", copy.copy), ("deepcopy", copy.deepcopy), ("CreateCopy", lambda x: x.CreateCopy()),
                              ("pickle", lambda x: pickle.loads(pickle.dumps(x)))):
